@@ -69,6 +69,11 @@ impl Wall {
         self.ticks.set(self.ticks.get() + (d.as_millis() as u64) / 4);
         self.publish();
     }
+    /// Moves the wall clock back by `d` (a node whose clock runs ahead has issued its stamp).
+    pub fn rewind(&self, d: Duration) {
+        self.ticks.set(self.ticks.get().saturating_sub((d.as_millis() as u64) / 4));
+        self.publish();
+    }
 }
 
 impl Drop for Wall {
